@@ -1184,6 +1184,12 @@ func main() {
 		json.Unmarshal(rp.Case, &k)
 		isOracleBack := (k.Kind == "method" || k.Kind == "event" || k.Kind == "error") && strings.Contains(string(rp.Case), `"params"`)
 		switch {
+		case strings.HasPrefix(k.Kind, "backnull/"):
+			var d nullDesc
+			json.Unmarshal(rp.Case, &d)
+			kind := map[string]int{"backnull/method": 0, "backnull/event": 1, "backnull/error": 2}[d.Kind]
+			cls := h.addBackNull(kind, d.Name, d.Params, d.Returns, "replay")
+			fmt.Println("implementation class (0 ok, 1 error, 2 panic):", cls)
 		case strings.HasPrefix(k.Kind, "back/") || isOracleBack:
 			// a case of the correspondence run, or the object of a Go-side oracle failure about one FFI -> ABI conversion
 			var d backDesc
@@ -1361,6 +1367,7 @@ func main() {
 		}()
 	}
 	h.directedMembers()
+	h.nullCorpus()
 	// near-miss spellings (other case, surrounding blanks) of JSON type names and Ethereum types: at the levels the
 	// jsonschema compile sees, and in a subtree it does not see (key spelled as only encoding/json reads it)
 	for i, nm := range [][2]string{{"String", "string"}, {" string", "string"}, {"string ", "bytes"}, {"Integer", "uint256"}, {"Boolean", "bool"}, {"Number", "fixed128x18"},
@@ -1526,6 +1533,26 @@ func main() {
 				det = oddDetails[r.Intn(len(oddDetails))]
 			}
 			h.addBackD(kind, "m", []pdesc{{Name: name, Schema: text}}, nil, det, "mutated:"+kinds[0], known)
+		}
+		if r.Intn(25) == 0 { // the same definition with a null entry at a random position of a longer list
+			n := 1 + r.Intn(4)
+			l := make([]*pdesc, n)
+			for j := range l {
+				switch r.Intn(3) {
+				case 0:
+					l[j] = &pdesc{Name: name, Schema: text}
+				case 1:
+					p := pool[r.Intn(len(pool))]
+					l[j] = &p
+				}
+			}
+			l[r.Intn(n)] = nil
+			if kind == 0 && r.Bool() {
+				p := pool[r.Intn(len(pool))]
+				h.addBackNull(0, "m", []*pdesc{&p}, l, "mutated-with-null")
+			} else {
+				h.addBackNull(kind, "m", l, nil, "mutated-with-null")
+			}
 		}
 	}
 
